@@ -27,13 +27,13 @@ FILES = {
 }
 # which checks can be affected by a change in a file (ordered: cheapest / most likely first)
 PROPS = {
-    'parser/': ['C03', 'C04', 'C05', 'C06', 'C02', 'C16', 'C15', 'C13', 'C10', 'C14', 'C17', 'C12', 'C01', 'C07', 'C09', 'C11'],
-    'saphyr/src/loader.rs': ['C07', 'C19', 'C15', 'C20', 'C13', 'C08', 'C09', 'C12', 'C01', 'C11'],
+    'parser/': ['C03', 'C04', 'C05', 'C06', 'C02', 'C16', 'C15', 'C13', 'C10', 'C14', 'C17', 'C07', 'C12', 'C01'],
+    'saphyr/src/loader.rs': ['C07', 'C19', 'C15', 'C20', 'C13', 'C08', 'C09', 'C12'],
     'saphyr/src/scalar.rs': ['C08', 'C13', 'C19', 'C09', 'C07', 'C20'],
     'saphyr/src/emitter.rs': ['C09', 'C11'],
     'saphyr/src/encoding.rs': ['C18'],
     'saphyr/src/macros.rs': ['C20', 'C19', 'C08', 'C07', 'C09', 'C12', 'C13'],
-    'saphyr/src/': ['C20', 'C19', 'C07', 'C08', 'C09', 'C12', 'C13', 'C01'],
+    'saphyr/src/': ['C20', 'C19', 'C07', 'C08', 'C09', 'C12', 'C13'],
 }
 SWAPS = [
     (r'==', '!='), (r'!=', '=='), (r'<=', '<'), (r'>=', '>'), (r'(?<![<>=!-])<(?![<=])', '<='), (r'(?<![<>=!-])>(?![>=])', '>='),
